@@ -217,6 +217,11 @@ theorem C13_slice_open_stop (s : ASeq) (a : Option Int) :
     · simp [h]
     · simp only [h, if_false, e1, e2]
 
+/-- A start left of the sequence start is rejected (`IndexError`), never wrapped around. -/
+theorem C13_slice_rejects_before_start (s : ASeq) (a : Int) (b : Option Int) (h : a < s.start) :
+    getSlice s (some a) b = .error .indexError := by
+  unfold getSlice; simp [h]
+
 /-! ## Indexing with a feature -/
 
 /-- `aseq[f]` for a feature whose locations share one strand: the location sub-sequences are
@@ -447,6 +452,17 @@ example : (setFeature exSeq ⟨0, 0, [⟨11, 12, .fwd, Defect.none⟩, ⟨5, 6, 
 example : getFeature exSeq ⟨0, 0, [⟨5, 6, .rev, Defect.none⟩, ⟨11, 12, .rev, Defect.none⟩]⟩ = .ok [0, 1, 2, 3] := by decide
 example : (reverseComplement exSeq 1).toOption.map (fun r => (r.seq, r.annot.map (·.locs.map fun l => (l.first, l.last))))
     = some ([2, 3, 0, 1, 2, 3, 0, 1, 2, 3], [[(7, 10), (1, 4)]]) := by decide
+-- the hypotheses of the assignment / involution / pairing theorems are satisfiable
+example : True := by
+  have := C13_feature_assign exSeq ⟨0, 0, [⟨11, 12, .fwd, Defect.none⟩, ⟨5, 6, .fwd, Defect.none⟩]⟩ .fwd [3, 3, 2, 2]
+    (by decide) (by decide) (by decide) (by decide) (by decide)
+  trivial
+example : True := by
+  have := C13_revcomp_involution exSeq 1 (by decide) (by decide)
+  trivial
+example : True := by
+  have := C13_slice_pairing exSeq (some 6) none (by decide) 6 15 rfl (by decide) (by decide) (by decide) (by decide)
+  trivial
 -- the heap copy is usable and fresh
 example : ((Heap.mk [[]] [[0, 1]]).copyObj copyKinds ⟨0, 0, 1⟩).map (·.2) = some ⟨1, 1, 1⟩ := by decide
 -- … and with the bound-method table of the unrepaired code there is no usable copy
